@@ -9,7 +9,7 @@
    queried before full and split claims in the farm scenarios).
    Statements only. *)
 From MD.Model Require Import Base Ownable Epoch PoolMath Types PoolManager FarmManager Chain.
-From MD.Proofs Require Import WeightProofs FarmProofs RewardProofs FarmCustody FarmCustodyChain ClaimFrame BankProofs TxFarm FarmCustody ClaimSplit NonVacuity.
+From MD.Proofs Require Import WeightProofs FarmProofs RewardProofs FarmCustody FarmCustodyChain ClaimFrame BankProofs TxFarm FarmCustody ClaimSplit ClaimTwice NonVacuity.
 
 Theorem C07_reward_formula : forall s f lp recv until lc rs,
   farm_rewards s f lp recv until lc = Ok rs ->
@@ -133,6 +133,47 @@ Theorem C07_total_weight_independent_of_start : forall ws lp e0c w0c start e,
   contract_weight_at ws lp start e = Ok (Some (cf ws FM lp (epoch_range (e0c + 1) e) w0c)).
 Proof. exact contract_weight_indep. Qed.
 
+(* ... for all the farms of one LP denom together: the coins calculate_rewards hands out *)
+Theorem C07_one_claim_pays_what_two_claims_pay_per_lp_denom : forall s sA lp recv c u1 u2 agg m agg1 m1 agg2 m2 e0 x0 e1 w1 e0c w0c,
+  lc_get (fm_last_claimed s) recv = Some c -> c < u1 < u2 -> u1 < U64_MAX ->
+  calculate_rewards s lp recv u2 = Ok (agg, m) ->
+  calculate_rewards s lp recv u1 = Ok (agg1, m1) ->
+  lc_get (fm_last_claimed sA) recv = Some u1 -> fm_cfg sA = fm_cfg s ->
+  farms_by_lp sA lp (fm_max_farms (fm_cfg s))
+    = map (fun f => with_claimed f (f_claimed f + sum_snd (rw s lp recv u1 (Some c) f))) (farms_by_lp s lp (fm_max_farms (fm_cfg s))) ->
+  calculate_rewards sA lp recv u2 = Ok (agg2, m2) ->
+  String.eqb FM recv = false ->
+  w_earliest (fm_weights s) recv lp = Some (e0, x0) -> w_latest (fm_weights s) recv lp = Some (e1, w1) -> c <= e1 <= u1 + 1 ->
+  w_earliest (fm_weights s) FM lp = Some (e0c, w0c) -> e0c <= c + 1 ->
+  wsame lp (synced (fm_weights s) recv lp e0 e1 u1 w1) (fm_weights sA) ->
+  (forall f, In f (farms_by_lp s lp (fm_max_farms (fm_cfg s))) ->
+             0 <= f_claimed f /\ f_claimed f + sum_snd (rw s lp recv u2 (Some c) f) <= amount_of (f_asset f) <= U128_MAX) ->
+  forall d, camt agg d = camt agg1 d + camt agg2 d.
+Proof. exact calculate_rewards_split. Qed.
+
+(* END TO END, for a user staking one LP denom: the Claim message executed up to u1 (leaving state sA) and then, in any
+   later world whose farm-manager state is sA, up to u2, sends the user - coin denom by coin denom - exactly what the single
+   Claim up to u2 sends him. Everything about sA (synchronised weight history, updated farm table, cursor) is derived from
+   the first claim itself; the budget bound is derived from the success of the single claim. *)
+Theorem C07_claiming_twice_pays_what_claiming_once_pays : forall wA wB wC sender lp c u1 u2 sA sB sC msgs1 msgs2 msgsC e1 w1 e0c w0c,
+  w_fm wC = w_fm wA -> w_fm wB = sA ->
+  unique_lp_denoms (positions_by_receiver (w_fm wA) sender true) = [lp] ->
+  lc_get (fm_last_claimed (w_fm wA)) sender = Some c -> c < u1 < u2 -> u1 < U64_MAX ->
+  claim wA sender [] (Some u1) = Ok (sA, msgs1) ->
+  claim wB sender [] (Some u2) = Ok (sB, msgs2) ->
+  claim wC sender [] (Some u2) = Ok (sC, msgsC) ->
+  NoDup (map f_id (fm_farms (w_fm wA))) ->
+  (forall f, In f (fm_farms (w_fm wA)) -> 0 <= f_claimed f <= amount_of (f_asset f) /\ amount_of (f_asset f) <= U128_MAX) ->
+  String.eqb FM sender = false ->
+  w_latest (fm_weights (w_fm wA)) sender lp = Some (e1, w1) -> c <= e1 <= u1 + 1 ->
+  w_earliest (fm_weights (w_fm wA)) FM lp = Some (e0c, w0c) -> e0c <= c + 1 ->
+  forall d, out_amt msgsC d = out_amt msgs1 d + out_amt msgs2 d.
+Proof. exact claim_twice_single_lp. Qed.
+
+(* ... on a real world (kernel-evaluated): alice claims up to 3 then up to 4: 262 + 262; at once up to 4: 524 *)
+Theorem C07_claiming_twice_example : twice_statement.
+Proof. exact twice_example. Qed.
+
 (* the hypotheses are met by a real state (kernel-evaluated): cursor 2, claim at 4, intermediate claim at 3, 262 per epoch *)
 Theorem C07_split_example : split_statement.
 Proof. exact split_example. Qed.
@@ -148,3 +189,6 @@ Print Assumptions C07_one_claim_pays_what_two_claims_pay.
 Print Assumptions C07_weight_after_synchronisation.
 Print Assumptions C07_total_weight_independent_of_start.
 Print Assumptions C07_split_example.
+Print Assumptions C07_one_claim_pays_what_two_claims_pay_per_lp_denom.
+Print Assumptions C07_claiming_twice_pays_what_claiming_once_pays.
+Print Assumptions C07_claiming_twice_example.
